@@ -382,11 +382,23 @@ class DavSession:
                 "pst": status.get(p) or 0, "vcls": vcls(v),
                 "free": bool(v is not None and NEUTRAL.get(p, p) == "color" and not v.startswith("#"))}
                for (p, v) in ops]
+        for x, (p, v) in zip(ins, ops):
+            # a PROPPATCH of DAV:resourcetype asks for another kind of collection: rt is the kind
+            # the listed elements denote ("" when they denote none - junk / no collection)
+            x["rt"] = ""
+            if p == "resourcetype":
+                els = [e for e in (v or "").split(",") if e]
+                x["v"] = 0
+                x["rt"] = {("collection",): "other", ("calendar", "collection"): "calendar",
+                           ("addressbook", "collection"): "addressbook"}.get(tuple(sorted(els)), "")
         # noop: the instruction sets the value an earlier acknowledged instruction of this session
         # stored for that property (and nothing removed it since): a request that changes nothing
         for x in ins:
             key = (c, x["p"])
-            x["noop"] = bool(x["set"] and not x["free"] and self.explicit.get(key) == x["v"])
+            x["noop"] = bool(x["set"] and not x["free"] and x["p"] != "resourcetype"
+                             and self.explicit.get(key) == x["v"])
+            if x["p"] == "resourcetype":
+                continue
             if x["pst"] == 200:
                 if x["set"] and not x["free"]:
                     self.explicit[key] = x["v"]
